@@ -3,6 +3,7 @@ package genlint
 import (
 	"fmt"
 	"go/ast"
+	"go/token"
 	"go/types"
 	"strings"
 
@@ -44,6 +45,7 @@ func (c *ctx) rejections() {
 			}
 			// values obtained from other methods of the compiler in this function
 			fromCompiler := map[types.Object]bool{}
+			boolFrom := map[types.Object]*ast.CallExpr{}
 			astx.Writes(fd.Body, func(l ast.Expr, at ast.Node) {
 				as, ok := at.(*ast.AssignStmt)
 				if !ok || len(as.Rhs) != 1 {
@@ -57,6 +59,9 @@ func (c *ctx) rejections() {
 					if sig, ok := fn.Type().(*types.Signature); ok && sig.Recv() != nil && strings.HasSuffix(sig.Recv().Type().String(), "internal.compiler") {
 						if o := astx.IdentObj(info, l); o != nil {
 							fromCompiler[o] = true
+							if b, isB := o.Type().Underlying().(*types.Basic); isB && b.Kind() == types.Bool {
+								boolFrom[o] = call
+							}
 						}
 					}
 				}
@@ -119,6 +124,27 @@ func (c *ctx) rejections() {
 						handedOn = true
 					}
 				}
+				// `if !ok` / `if !c.check(x)`: the verdict of another method of the compiler whose every
+				// `return …, false` stands in a block or clause that reports a diagnostic first
+				for _, cd := range cs {
+					e := astx.Unparen(cd.E)
+					if cd.Pos {
+						u, isNot := e.(*ast.UnaryExpr)
+						if !isNot || u.Op != token.NOT {
+							continue
+						}
+						e = astx.Unparen(u.X)
+					}
+					var call *ast.CallExpr
+					if ce, ok := e.(*ast.CallExpr); ok {
+						call = ce
+					} else if o := astx.IdentObj(info, e); o != nil && boolFrom[o] != nil {
+						call = boolFrom[o]
+					}
+					if call != nil && c.falseMeansReported(call) {
+						handedOn = true
+					}
+				}
 				if as, ok := is.Init.(*ast.AssignStmt); ok && len(as.Rhs) == 1 {
 					if call, ok := astx.Unparen(as.Rhs[0]).(*ast.CallExpr); ok {
 						if fn := astx.Callee(info, call); fn != nil && fn.Pkg() == c.inter.Types {
@@ -134,4 +160,61 @@ func (c *ctx) rejections() {
 		}
 	}
 	c.s.SetFact("genlint.give_ups", n)
+}
+
+// falseMeansReported: call is a call of a method of the compiler whose last result is a bool, and every
+// return of that method whose last result is the literal `false` stands in a block or case clause that
+// reports a diagnostic before it (the failure is reported where it arose).
+func (c *ctx) falseMeansReported(call *ast.CallExpr) bool {
+	info := c.inter.TypesInfo
+	fn := astx.Callee(info, call)
+	if fn == nil || fn.Pkg() != c.inter.Types {
+		return false
+	}
+	sig, ok := fn.Type().(*types.Signature)
+	if !ok || sig.Recv() == nil || !strings.HasSuffix(sig.Recv().Type().String(), "internal.compiler") || sig.Results().Len() == 0 {
+		return false
+	}
+	if b, isB := sig.Results().At(sig.Results().Len() - 1).Type().Underlying().(*types.Basic); !isB || b.Kind() != types.Bool {
+		return false
+	}
+	for _, fc := range c.files {
+		d := astx.DeclOfFunc(info, []*ast.File{fc.file}, fn)
+		if d == nil || d.Body == nil {
+			continue
+		}
+		okAll, falses := true, 0
+		ast.Inspect(d.Body, func(n ast.Node) bool {
+			if _, isLit := n.(*ast.FuncLit); isLit {
+				return false
+			}
+			ret, isRet := n.(*ast.ReturnStmt)
+			if !isRet || len(ret.Results) == 0 {
+				return true
+			}
+			last := astx.Unparen(ret.Results[len(ret.Results)-1])
+			tv, known := info.Types[last]
+			if !known || tv.Value == nil {
+				okAll = false // a computed verdict: not decided here
+				return true
+			}
+			if tv.Value.String() != "false" {
+				return true
+			}
+			falses++
+			var blk *ast.BlockStmt
+			switch p := fc.par[ret].(type) {
+			case *ast.BlockStmt:
+				blk = p
+			case *ast.CaseClause:
+				blk = &ast.BlockStmt{List: p.Body}
+			}
+			if blk == nil || !c.reportsDiagnostic(blk) {
+				okAll = false
+			}
+			return true
+		})
+		return okAll && falses > 0
+	}
+	return false
 }
